@@ -97,6 +97,7 @@ class Ctx:
         self.sched_steps = 0  # scheduler steps (C19)
         self.sig: list = []  # coverage signature parts
         self.observations: Counter = Counter()  # non-verdict notes
+        self.artifacts: dict = {}  # e.g. the recorded thread schedule (C19)
         self.root = tempfile.mkdtemp(prefix="run-", dir=scratch_root())
         self._keep = keep
 
@@ -147,6 +148,7 @@ class Outcome:
         "observations",
         "error",
         "info",
+        "artifacts",
     )
 
     def __init__(self) -> None:
@@ -162,6 +164,7 @@ class Outcome:
         self.observations = {}
         self.error = None
         self.info = {}
+        self.artifacts = {}
 
     def to_dict(self) -> dict:
         return {k: getattr(self, k) for k in self.__slots__}
@@ -199,6 +202,7 @@ def run_scenario(mod, sc: dict, keep: bool = False) -> Outcome:
         out.io_steps = ctx.io_steps
         out.sched_steps = ctx.sched_steps
         out.observations = dict(ctx.observations)
+        out.artifacts = ctx.artifacts
         out.nontrivial = bool(getattr(mod, "nontrivial", lambda s, c: True)(sc, ctx))
     finally:
         ctx.close()
